@@ -112,7 +112,9 @@ pub fn scenarios(tier: &str) -> Vec<Scenario> {
 					if base {
 						v.push(scenario(&format!("{}/n3", name), spec.clone(), 1, 0, 3, 1));
 						v.push(scenario(&format!("{}/n2-full", name), spec.clone(), 1, 2, 2, 1));
-						v.push(scenario(&format!("{}/2col-n2", name), spec.clone(), 2, 0, 2, 1));
+						let mut s2 = scenario(&format!("{}/2col-n2", name), spec.clone(), 2, 0, 2, 1);
+						s2.merge_check = true; // quick tier: the state identity is validated on this scenario (thorough: on all)
+						v.push(s2);
 					} else {
 						v.push(scenario(&format!("{}/n2", name), spec.clone(), 1, 1, 2, 1));
 					}
